@@ -54,6 +54,19 @@ fn process_cpu_secs() -> f64 {
 
 /// Run `body` on a worker thread under the watchdog.  If a call never returns, a report holding
 /// the violation is printed and the process exits (the worker cannot be stopped).
+/// Same interface, no watcher thread (for runs under Miri, which has no process CPU clock).
+pub fn run_without_watchdog<F>(rep: &mut Report, body: F)
+where
+    F: FnOnce(&mut Report, &Heartbeat),
+{
+    let hb = Heartbeat {
+        beat: AtomicU64::new(0),
+        in_call: AtomicBool::new(false),
+        ctx: Mutex::new((String::new(), String::new())),
+    };
+    body(rep, &hb)
+}
+
 pub fn run_with_watchdog<F>(rep: &mut Report, body: F)
 where
     F: FnOnce(&mut Report, &Heartbeat) + Send,
